@@ -493,7 +493,7 @@ def c_transform(case, ctx):
     if mirrored:
         ctx.event("mirrored fit (round trip of state not claimed)")
     else:
-        expect_state(ctx, "roundtrip.state:" + kind, rs.nstate_diff(objs.build_homog(tc), o2, rtol=tol, atol=tol, skip=("._target",) if is_align else ()))
+        expect_state(ctx, "roundtrip.state:" + kind, rs.nstate_diff(objs.build_homog(tc), o2, rtol=tol, atol=tol, skip=("._target",) if is_align else (), loose_dtype=("._h_matrix",)))
     check_receiver_unchanged(o, ctx, d0, "own_vector")
     # clause 3
     w = gen.build_unit_quaternion(case["w"]) if is_rot else np.array(case["w"], dtype=float)
